@@ -483,10 +483,20 @@ def model_runs(ctx, quick):
         what, c, tab, expect = jb
         return jb, vf.tlc("ArchTwins_mc", c, workers=4, env={"TABLES": tab}, timeout=1500, heap="6g", tag="ArchTwins_" + what.replace(" ", "_").replace(",", ""))
     for (what, c, tab, expect), r in vf.parallel(one, jobs, nproc=4):
+        if r.error and "TablesWellTyped" in r.error:
+            r.violation, r.error = "TablesWellTyped", None         # violated in the initial state: TLC words it as an error
         if r.error:
             raise vf.Infra("ArchTwins_mc %s: %s" % (what, r.error))
         ctx.add_tlc(r, "mc ArchTwins_mc/%s (%s)" % (c, what))
         vf.log("[mc] %-58s distinct=%d %s (%.1fs)" % (what, r.distinct, "OK" if r.ok else "VIOLATED " + str(r.violation), r.wall))
+        rows_ = [json.loads(x) for x in open(tab)]
+        sfx = ("_c", "_sse", "_sse2", "_sse4_1", "_avx2")
+        ill = [(rw["kern"], lv, im) for rw in rows_ for lv, im in enumerate(rw["impl"]) if im != "?" and im not in [rw["kern"] + x for x in sfx]]
+        if ill and (r.violation in ("TwinEquiv", "FixedAllEqual", "TablesWellTyped") or (expect is not None and r.violation != expect)):
+            # an entry that selects an implementation of a different kernel: the model treats it as a deviant implementation and TLC
+            # refutes twin equivalence on the tables of THIS build; the verdict is left to the twin executions (R1)
+            ctx.spec_drift("ArchTwins", "dispatch table entry selects an implementation of a different kernel (kernel, level, symbol) %s: TLC (%s) reports %s on the tables of this build" % (ill[:6], what, r.violation))
+            continue
         if expect is None and r.violation == "TablesKnown":
             ctx.spec_drift("ArchTwins", "a dispatch table of the library names a kernel the spec does not classify: " + open(tab).read()[:1200])
         elif expect is None and r.violation:
